@@ -338,7 +338,7 @@ def cli_case(args):
         outfile = os.path.join(work, "out_{package}.json")
         cmd += ["-o", outfile]
     out["cmd"] = " ".join(cmd)
-    proc = subprocess.run(cmd, capture_output=True, text=True, cwd=work, env=child_env(), timeout=300, check=False)
+    proc = subprocess.run(cmd, capture_output=True, text=True, cwd=work, env=child_env(), timeout=900, check=False)
     if proc.returncode != 0:
         out["problems"].append(f"exit status {proc.returncode}: {proc.stderr[-400:]}")
         return out
